@@ -177,8 +177,8 @@ func syncSkel(p *Pkg, fd *ast.FuncDecl) []string {
 	return out
 }
 
-// writeSkeleton writes the skeleton of every function of one source file to <facts dir>/skeletons/<name>.txt.
-func writeSkeleton(p *Pkg, o *Out, file, name string) {
+// c18writeSkeleton writes the skeleton of every function of one source file to <facts dir>/skeletons/<name>.txt.
+func c18writeSkeleton(p *Pkg, o *Out, file, name string) {
 	var lines []string
 	found := false
 	for _, f := range p.Files {
@@ -274,5 +274,5 @@ func extractC18(repo string, o *Out) {
 		}
 	}
 	o.nat("minWorkers", minW, "sched/executor_threadpool.go NewThreadPoolExecutor: replacement for nworker <= 0")
-	writeSkeleton(sp, o, "executor_threadpool.go", "executor_threadpool.txt")
+	c18writeSkeleton(sp, o, "executor_threadpool.go", "executor_threadpool.txt")
 }
